@@ -203,8 +203,11 @@ def _run_cases(job, specs, descs, mods, res, bump, mode, spans, bytes_mode, tag)
                     text = fresh(text)
                     out = impl.run(parse, text, pos, full, spans=spans, time_limit=limit)
                     if out['kind'] == 'DIVERGES':
-                        # not believed until re-run alone with 10x the budget
+                        # not believed until re-run alone with 10x, then 100x the budget (a loaded machine must
+                        # never turn into an alarm; a really diverging grammar is abandoned after this one case)
                         out = impl.run(parse, text, pos, full, spans=spans, time_limit=limit * 10)
+                        if out['kind'] == 'DIVERGES':
+                            out = impl.run(parse, text, pos, full, spans=spans, time_limit=max(30.0, limit * 100))
                     bump('cases')
                     if nontrivial:
                         bump('nontrivial')
